@@ -15,7 +15,7 @@ from __future__ import annotations
 import ast
 
 from .core import AnalysisError, Program, U
-from .guards import Flow, Interp, Unknown
+from .guards import Flow, Interp, Sym, Unknown
 from .tables import Tables, apply_patch
 
 PSEUDO = ("N+1", "C-1")
@@ -178,6 +178,14 @@ class Model:
                     target = model.resolve_helper(interp, call, meth)
                     if target is not None:
                         return model.inline(interp, call, target, hook)
+            if isinstance(f, ast.Name) and callable(interp.env.get(name)) and not isinstance(interp.env.get(name), dict):
+                # a pure function of the standard library held in a variable (operator.ge looked up in a table)
+                args = [interp.ev(a) for a in call.args]
+                if any(isinstance(a, Sym) for a in args) and len(args) == 2 and getattr(interp.env[name], "__module__", "") == "_operator":
+                    opn = {"lt": ast.Lt, "le": ast.LtE, "gt": ast.Gt, "ge": ast.GtE, "eq": ast.Eq, "ne": ast.NotEq}.get(interp.env[name].__name__)
+                    if opn is not None:
+                        return Sym.compare(args[0], opn(), args[1], interp.env, call)
+                return interp.env[name](*args)
             if name in ("reversed", "list", "tuple", "len", "enumerate"):
                 args = [interp.ev(a) for a in call.args]
                 res = {"reversed": lambda v: list(reversed(v)), "list": list, "tuple": tuple, "len": len,
@@ -188,6 +196,13 @@ class Model:
         return hook
 
     def resolve_helper(self, interp, call, meth):
+        # dynamic dispatch: the method is looked up from the class of the object, not from the class whose method is running
+        selfobj = interp.env.get("self")
+        dyn = selfobj.get("__class__") if isinstance(selfobj, dict) else None
+        if dyn is not None and hasattr(dyn, "methods"):
+            found = self.prog.find_method(dyn, meth)
+            if found is not None:
+                return found
         cur = interp.env.get("__cls__")
         if cur is not None:
             return self.prog.find_method(cur, meth)
